@@ -5,29 +5,35 @@
   The harness applies one external stimulus at a time and lets the real goroutines run
   until all are blocked. This driver is the matching SCHEDULER: it turns each stimulus
   into the labels of the steps the goroutines take until quiescence and feeds them to
-  the proved step function `Mux.step Mux.fixed` — every state change goes through `step`;
-  the scheduler only decides which labels to emit (it tracks what is invisible in the
-  abstract state: which close channels mainLoop captured at its last loop head, which
-  Accept calls are outstanding, which clients have sent). Core Lean only.
+  the proved step function `Mux.step Mux.fixed` through `MuxMgr.stepMux / capture / register`
+  (one mux, mainLoop's capture of the close channels explicit, `wake := false` = the code as it is) — every state change goes through them; the scheduler only decides which
+  labels to emit (it tracks which Accept calls are outstanding and which clients have sent).
+  Core Lean only.
 -/
-import Hy.Model.Mux
+import Hy.Model.MuxMgr
 import Hy.Drv.Util
 namespace Hy.Drv.C18Mux
-open Hy Hy.Drv Hy.Mux Hy.Conn
+open Hy Hy.Drv Hy.Mux Hy.MuxMgr Hy.Conn
 
 structure DS where
-  st : St := {}
+  w : MuxW := { key := 0 }
   payload : List (Nat × Stream) := []     -- conn id → the chunks its client sends
   sent : List Nat := []                   -- clients that have sent their bytes (B)
   hung : List Nat := []                   -- clients that hung up (finalisation)
-  cap : Option Nat × Option Nat := (none, none)  -- mainLoop's captured (socks, http) listeners
   outstanding : List (Nat × Nat) := []    -- (call index, sub-listener) of blocked Accept calls
   results : List (Nat × String) := []     -- call index → result
   nCalls : Nat := 0
   late : Option Nat := none
   order : List Nat := []                  -- conns in the order their first byte was read
 
-def DS.apply (d : DS) (l : Label) : DS := { d with st := step fixed d.st l }
+def DS.st (d : DS) : St := d.w.st
+
+def DS.apply (d : DS) (l : Label) : DS :=
+  match l with
+  | .listen k => { d with w := register false d.w k }
+  | l => { d with w := stepMux d.w l }
+
+def DS.capture (d : DS) : DS := { d with w := MuxMgr.capture d.w }
 
 def DS.payloadOf (d : DS) (c : Nat) : Stream :=
   match d.payload.find? (fun p => p.1 = c) with
@@ -36,13 +42,8 @@ def DS.payloadOf (d : DS) (c : Nat) : Stream :=
 
 def DS.conns (d : DS) : List Nat := (d.payload.map (·.1)).mergeSort
 
-def recapture (d : DS) : DS := { d with cap := (d.st.socks, d.st.http) }
-
 /-- acceptLoop → mainLoop hand-over; mainLoop then loops and captures again -/
-def stepHand (d : DS) : DS :=
-  match d.st.aloop with
-  | .holding _ => if d.st.phase = .running then recapture (d.apply .handToMain) else d
-  | _ => d
+def stepHand (d : DS) : DS := (d.capture.apply .handToMain).capture
 
 /-- dispatch goroutines: first byte / EOF, lock region, select -/
 def stepConn (d : DS) (c : Nat) : DS :=
@@ -74,19 +75,9 @@ def stepDeliver (d : DS) : DS :=
         { d with outstanding := d.outstanding.filter (· ≠ call), results := d.results ++ [(call.1, "err")] }
       else d) d
 
-def stepMainClose (d : DS) (k : Kind) : DS :=
-  if d.st.phase ≠ .running then d else
-  let capk := match k with | .socks => d.cap.1 | .http => d.cap.2
-  match capk with
-  | some t =>
-    if subClosed d.st.subs t then
-      -- the captured channel fired; the step changes the slot only if it still holds t
-      if d.st.slot k = some t then recapture (d.apply (.mainSeesSubClosed k)) else recapture d
-    else d
-  | none => d
+def stepMainClose (d : DS) (k : Kind) : DS := (d.capture.apply (.mainSeesSubClosed k)).capture
 
-def stepMainAccept (d : DS) : DS :=
-  if d.st.phase = .running ∧ d.st.aloop = .done then d.apply .mainSeesAcceptClosed else d
+def stepMainAccept (d : DS) : DS := d.capture.apply .mainSeesAcceptClosed
 
 /-- the deferred function of mainLoop: base.Close() (a blocked base.Accept returns the
     armed conn, or an error), close(l.closeChan), sub-listeners notified -/
